@@ -318,6 +318,40 @@ class Order:
                     return -1
                 if hi == 0:
                     return 2
+        # a single min / max atom: compare with both of its arguments
+        for x, y, flip in ((a, b, False), (b, a, True)):
+            if x.c == 0 and len(x.lin) == 1:
+                (at, k), = x.lin
+                if k == 1 and isinstance(at, tuple) and at[0] in ("min", "max") and len(at) == 3 and not getattr(self, "_busy", False):
+                    self._busy = True
+                    try:
+                        c1, c2 = self.cmp(at[1], y), self.cmp(at[2], y)
+                    finally:
+                        self._busy = False
+                    r = None
+                    if at[0] == "min":
+                        # min(p, q) vs y
+                        if c1 in (1,) and c2 in (1,):
+                            r = 1
+                        elif c1 in (0, 1, 3) and c2 in (0, 1, 3):
+                            r = 3
+                        elif c1 == -1 or c2 == -1:
+                            r = -1
+                        elif c1 in (0, 2) or c2 in (0, 2):
+                            r = 2
+                    else:
+                        if c1 == -1 and c2 == -1:
+                            r = -1
+                        elif c1 in (0, -1, 2) and c2 in (0, -1, 2):
+                            r = 2
+                        elif c1 == 1 or c2 == 1:
+                            r = 1
+                        elif c1 in (0, 3) or c2 in (0, 3):
+                            r = 3
+                    if r is not None:
+                        if flip:
+                            r = {1: -1, -1: 1, 2: 3, 3: 2, 0: 0}[r]
+                        return r
         if (a, b) in self.lt:
             return -1
         if (b, a) in self.lt:
